@@ -1,0 +1,45 @@
+//go:build verif
+
+// Verification hooks (build tag "verif"): drive a forwarding thread
+// synchronously. Run() dequeues packets and calls exactly these functions;
+// the hooks call them directly so that an external monitor can observe the
+// effect of each packet. Nothing here changes behaviour of existing code.
+
+package fw
+
+import (
+	"github.com/named-data/ndnd/fw/defn"
+	"github.com/named-data/ndnd/fw/table"
+	enc "github.com/named-data/ndnd/std/encoding"
+)
+
+// VerifInterest processes one incoming Interest (what Run does for a queued Interest).
+func VerifInterest(t *Thread, p *defn.Pkt) { t.processIncomingInterest(p) }
+
+// VerifData processes one incoming Data (what Run does for a queued Data).
+func VerifData(t *Thread, p *defn.Pkt) { t.processIncomingData(p) }
+
+// VerifReap runs the periodic maintenance Run performs on its timers:
+// PIT expiry processing and dead-nonce-list expiry. It does not re-arm timers.
+func VerifReap(t *Thread) {
+	verifPitUpdate(t)
+	t.deadNonceList.RemoveExpiredEntries()
+}
+
+// verifPitUpdate is pitCS.Update() followed by draining the re-armed timer signal,
+// so that no goroutine stays blocked on the unbuffered update channel.
+func verifPitUpdate(t *Thread) {
+	t.pitCS.Update()
+	go func() { <-t.pitCS.UpdateTimer() }()
+}
+
+// VerifPitCs returns the thread's PIT-CS table.
+func VerifPitCs(t *Thread) table.PitCsTable { return t.pitCS }
+
+// VerifDnlHas reports whether (name, nonce) is in the thread's dead nonce list.
+func VerifDnlHas(t *Thread, name enc.Name, nonce uint32) bool {
+	return t.deadNonceList.Find(name, nonce)
+}
+
+// VerifDnl returns the thread's dead nonce list.
+func VerifDnl(t *Thread) *table.DeadNonceList { return t.deadNonceList }
